@@ -5,6 +5,7 @@ go 1.26.5
 require (
 	github.com/anishathalye/porcupine v1.3.0
 	github.com/cosi-project/runtime v0.0.0
+	github.com/siderolabs/gen v0.8.7
 	go.etcd.io/bbolt v1.5.0
 	go.uber.org/zap v1.28.0
 	google.golang.org/grpc v1.82.0
@@ -16,7 +17,6 @@ require (
 	github.com/gertd/go-pluralize v0.2.1 // indirect
 	github.com/grpc-ecosystem/grpc-gateway/v2 v2.29.0 // indirect
 	github.com/planetscale/vtprotobuf v0.6.1-0.20240319094008-0393e58bdf10 // indirect
-	github.com/siderolabs/gen v0.8.7 // indirect
 	github.com/siderolabs/go-pointer v1.0.1 // indirect
 	github.com/siderolabs/protoenc v0.2.4 // indirect
 	go.uber.org/multierr v1.11.0 // indirect
